@@ -24,6 +24,10 @@ from . import gen
 DB_KEYS = [('p', 0), ('p', 1), ('p', 2), ('q', 1), ('flag', 0), ('d', 1), ('d', 2), ('e', 0), ('c', 1)]
 
 
+class FreshnessError(Exception):
+    pass
+
+
 class Stop(Exception):
     """the reference could not decide the rest of the history (budget / unspecified): compare the prefix"""
 
@@ -184,6 +188,8 @@ class ImplWorld:
         self.shared = {}
         self.unis = {}
         self.atoms = {}
+        self.track_fresh = False
+        self.fresh_seen = {}
 
     def do(self, op, keys=()):
         k = op[0]
@@ -314,7 +320,40 @@ class ImplWorld:
         return 'ok'
 
     def op_run(self, e, goal, limit):
-        st, out = impl.run_query(self.eng[e], tt(goal), limit)
+        if not self.track_fresh:
+            st, out = impl.run_query(self.eng[e], tt(goal), limit)
+            return ['answers', out]
+        # like run_query, but remembers every unbound Variable OBJECT that shows up in an answer: variables of a stored
+        # fact are "fresh at every use", so an object seen in an earlier use must never come back (C13)
+        yp = self.eng[e]
+        q = tt(goal)
+        name, args = impl.goal_parts(q)
+        vmap = {}
+        eargs = [impl.to_engine(yp, a, vmap) for a in args]
+        own = {id(v) for v in vmap.values()}
+        out = []
+        now = {}
+        g = yp.query(name, eargs)
+        try:
+            for _ in g:
+                seen = {}
+                out.append(q if q[0] == 'a' else ('f', name, tuple(impl.reify(a, seen) for a in eargs)))
+                stack = [impl.get_value(a) for a in eargs]
+                while stack:
+                    x = stack.pop()
+                    if isinstance(x, impl.Variable):
+                        if id(x) not in own:
+                            now[id(x)] = x
+                    elif isinstance(x, impl.Functor):
+                        stack.extend(x._args)
+                if len(out) >= limit:
+                    break
+        finally:
+            g.close()
+        reused = [i for i in now if i in self.fresh_seen]
+        self.fresh_seen.update(now)        # keeps the objects alive, so ids cannot be recycled
+        if reused:
+            raise FreshnessError('%d unbound variable object(s) of an earlier use of the database came back in the answers of %s' % (len(reused), name))
         return ['answers', out]
 
     def op_db(self, e, keys):
@@ -355,10 +394,11 @@ def jn(x):
     return json.loads(json.dumps(x, default=str))
 
 
-def run_history(ops, ref_steps=4000, immediate=False, skip_undecided=False):
+def run_history(ops, ref_steps=4000, immediate=False, skip_undecided=False, track_fresh=False):
     """returns (n_ops_decided, reference observations, impl observations, failure or None, refworld)"""
     ref = RefWorld(ref_steps, immediate)
     im = ImplWorld(10 * ref_steps + 500)
+    im.track_fresh = track_fresh
     robs, iobs = [], []
     for i, op in enumerate(ops):
         for it in ref.eng.values():
@@ -383,6 +423,8 @@ def run_history(ops, ref_steps=4000, immediate=False, skip_undecided=False):
             o = im.do(op, keys)
         except impl.ImplBudget:
             return i, robs, iobs, ('impl-does-not-terminate', i, op, r, None), ref
+        except FreshnessError as e:
+            return i, robs, iobs, ('fact-variable-reused-across-uses', i, op, r, str(e)), ref
         except RecursionError as e:
             return i, robs, iobs, ('exception:RecursionError', i, op, r, str(e)[:100]), ref
         except Exception as e:     # noqa
